@@ -152,6 +152,13 @@ fn judge(c: &Case, sigs: &[sig::Sig], t: &mut Tally, v: &mut Vec<Violation>) -> 
                 );
             }
         }
+        Expected::HeaderOnly("getaddr") => {
+            if rp.accept_stat != 0 {
+                bad("reply-body", format!("reply-body:getport:stat{}", rp.accept_stat), format!("GETADDR answered with accept_stat {}", rp.accept_stat));
+            } else if let Err(e) = rpc::check_getaddr(&body[24..], &c.dst, c.dport) {
+                bad("reply-body", "reply-body:getport:stat0".into(), e);
+            }
+        }
         Expected::HeaderOnly(_) => {
             if rp.accept_stat != 0 {
                 bad("dump-stat", "dump-stat".into(), format!("DUMP answered with accept_stat {}", rp.accept_stat));
